@@ -15,7 +15,7 @@
 4. The same for random criteria trees (depth <= 3, larger values, times of day) and random key
    lists of up to 8 keys (nested NOT / OR / parenthesised lists).
 """
-import json, os
+import json, os, time
 import vlib
 
 NCHUNKS = 64  # SearchAlgTrace!NChunks
@@ -23,15 +23,24 @@ NCHUNKS = 64  # SearchAlgTrace!NChunks
 
 def run(ctx):
     quick = ctx.tier == "quick"
+    walls, t = {}, time.time()
+
+    def lap(name):
+        nonlocal t
+        walls[name] = round(time.time() - t, 1)
+        t = time.time()
     # 1. design-level model check of the reference
     r = ctx.tlc_ok("SearchAlg", "SearchAlg_mc.cfg" if quick else "SearchAlg_mc_thorough.cfg", timeout=900)
+    lap("model_check")
     # 2. spec -> impl: every enumerated pair / key sequence through the real code
     g = ctx.tlc("SearchAlgGen", "SearchAlgGen_quick.cfg" if quick else "SearchAlgGen_thorough.cfg",
                 timeout=900, count=False)
     if g.status != "ok":
         raise vlib.Infra("generator failed: %s\n%s" % (g.cmd, g.detail or g.tail))
     ncases = vlib.count_lines(g.out_path, '<<"T"')
+    lap("generate")
     binp = ctx.build("searchalg")
+    lap("go_build")
     rec = os.path.join(ctx.scratch, "searchalg-enum.ndjson")
     recs, _, _ = ctx.harness(binp, ["gen", g.out_path, rec], timeout=900)
     s = ctx.summary(recs)
@@ -42,12 +51,14 @@ def run(ctx):
     npairs, ncmds = (400, 400) if quick else (4000, 4000)
     recs, _, _ = ctx.harness(binp, ["random", rnd, "-seed", ctx.seed, "-pairs", npairs, "-cmds", ncmds], timeout=900)
     s2 = ctx.summary(recs)
+    lap("real_code")
     # 4. impl -> spec: TLC judges every record (enumerated and random in one run)
     allp = os.path.join(ctx.scratch, "searchalg-all.ndjson")
     with open(allp, "w") as fh:
         fh.write(open(rec).read())
         fh.write(open(rnd).read())
     n, bad = judge(ctx, allp, "all")
+    lap("judge")
     report(ctx, allp, bad)
     n1, n2 = s["records"], n - s["records"]
     bad1 = [d for d in bad if d["line"] <= n1]
@@ -62,11 +73,12 @@ def run(ctx):
     for smp in (s.get("samples") or [])[:3] + (s2.get("samples") or [])[:2]:
         ctx.sample({"recorded": smp})
     demo = binding_demo(ctx, rec, {d["line"] for d in bad1})
+    lap("binding_demo")
     ctx.finish(rule="one case = one criteria pair run through the real SearchCriteria.And, or one SEARCH command "
                "sent to a real imapserver connection, recorded and judged by TLC on every message of the universe; "
                "non-trivial = both operands populate at least one field (pairs) / the command has at least two keys; "
                "enumerated cases are distinct by construction (one per generated state)",
-               extra={"binding_demo": demo, "mc_states": r.distinct, "enumerated_pairs": s["pairs"],
+               extra={"binding_demo": demo, "phase_wall_s": walls, "mc_states": r.distinct, "enumerated_pairs": s["pairs"],
                       "enumerated_commands": s["commands"], "random_pairs": s2["pairs"],
                       "random_commands": s2["commands"], "records_rejected": len(bad),
                       "rejected_enumerated": len(bad1), "rejected_random": len(bad2),
@@ -121,41 +133,41 @@ def has_key(keys, name):
     return any(k["k"] == name or has_key(k.get("sub") or [], name) for k in keys)
 
 
-def explain(got, ref, top_diff, new_present, path=""):
-    """Labels for the places where the recorded criteria differ from the reference conjunction.
-    Diagnosis only (the verdict is TLC's): returns (known-pattern labels, other differing places)."""
-    labels, rest = set(), []
-    for f in FIELDS:
-        if got.get(f) == ref.get(f):
-            continue
-        if path == "" and top_diff is not None and f not in top_diff:
-            continue   # structurally different, same meaning (TLC compared the field's meaning)
-        if f == "smaller" and got.get(f) == 0 and ref.get(f) != 0:
-            labels.add("and-drops-smaller")
-        elif f == "notflag" and new_present:
-            labels.add("search-new-notflag")
-        elif f == "not" and len(got[f]) == len(ref[f]):
-            for i, (x, y) in enumerate(zip(got[f], ref[f])):
-                l2, r2 = explain(x, y, None, new_present, "%snot[%d]." % (path, i))
-                labels |= l2
-                rest += r2
-        elif f == "or" and len(got[f]) == len(ref[f]):
-            for i, (x, y) in enumerate(zip(got[f], ref[f])):
-                for j in (0, 1):
-                    l2, r2 = explain(x[j], y[j], None, new_present, "%sor[%d][%d]." % (path, i, j))
-                    labels |= l2
-                    rest += r2
-        else:
-            rest.append(path + f)
-    return labels, rest
+def nav(c, path):
+    """value at a path printed by SearchAlgTrace!DiffPaths (list indices are 1-based strings)"""
+    for p in path:
+        c = c[int(p) - 1] if p.isdigit() else c[p]
+    return c
+
+
+def place(path):
+    """path without list indices, so that signatures are stable"""
+    return ".".join(p for p in path if not p.isdigit())
 
 
 def sigs_for(rec, d):
+    """Stable signatures of a rejected record.  Diagnosis only (the verdict is TLC's): every field
+    whose meaning differs from the reference conjunction either shows one of the two narrow known
+    patterns or is named in the signature."""
     kind = "and" if rec["kind"] == "and" else "search"
     if not d.get("ok"):
         return ["search-rejected"]
-    labels, rest = explain(rec["r"], d["ref"], set(d.get("diff") or []),
-                           rec["kind"] == "keys" and has_key(rec["keys"], "NEW"))
+    new_present = rec["kind"] == "keys" and has_key(rec["keys"], "NEW")
+    labels, rest = set(), []
+    for path in d.get("diff") or []:
+        f = path[-1]
+        try:
+            got, ref, drop = nav(rec["r"], path), nav(d["ref"], path), nav(d["drop"], path)
+        except (IndexError, KeyError, TypeError):
+            rest.append(place(path))
+            continue
+        if f == "smaller" and got == drop and got != ref:
+            # exactly the value predicted by "And lets an unset Smaller of the argument win"
+            labels.add("and-drops-smaller")
+        elif f == "notflag" and new_present:
+            labels.add("search-new-notflag")
+        else:
+            rest.append(place(path))
     out = sorted(labels)
     if rest or not out:
         out.append("%s-mismatch/%s" % (kind, ",".join(sorted(set(rest))) or "?"))
